@@ -19,7 +19,7 @@ func init() {
 		ID:    "C19",
 		Level: "model_checking",
 		Rule: "bounded-exhaustive, per exported matcher: every string of length <=L (L per matcher, 4..6) over that matcher's own alphabet plus the HTML-significant characters < > \" = ` NUL BEL ; & U+00A0 U+FF1C, a line feed, three non-ASCII numerals (U+00B2, U+0661, U+2167) and U+017F; every string of length <=3 over that alphabet widened by 19 regular-expression metacharacters (| : ? ( ) [ ] * + . ^ $ \\ { } , - #), " +
-			"every single and double metacharacter insertion / substitution, and every single and double character substitution / insertion / deletion (over the matcher alphabet) of every documented example (for ISO8601 each of the six documented shapes and their space / Z / offset variants). " +
+			"every splice of the beginning of one documented example with the end of another, every single and double metacharacter insertion / substitution, and every single and double character substitution / insertion / deletion (over the matcher alphabet) of every documented example (for ISO8601 each of the six documented shapes and their space / Z / offset variants). " +
 			"Oracle: MatchString(s) implies that a hand-written recogniser of the documented form accepts s (hence every character of s is in the documented alphabet); every documented example is accepted. " +
 			"non-trivial = strings on which matcher and recogniser both answer yes, plus strings that differ from an accepted one by a single edit and are rejected.",
 		Assumptions: []string{"the recognisers in internal/checks/c19.go are the reference for 'documented form'; letter-case folding is ASCII only in the alphabets used"},
